@@ -69,7 +69,7 @@ var findings = []kit.Finding[Case]{
 			if !ok || grid != -1 || !isColumnEdit(f.Detail) || !strings.Contains(f.Detail, "nil pointer dereference") {
 				return false
 			}
-			return analyse(c.Build()).anyTable(func(t tblInfo) bool { return !t.HasGrid })
+			return analyse(c.Build()).AnyNoGrid
 		},
 	},
 	{
@@ -83,7 +83,7 @@ var findings = []kit.Finding[Case]{
 			if !ok || grid < 0 || grid >= cells0 || !isColumnEdit(f.Detail) || !boundsPanic(f.Detail) {
 				return false
 			}
-			return analyse(c.Build()).anyTable(func(t tblInfo) bool { return t.HasGrid })
+			return analyse(c.Build()).AnyGrid
 		},
 	},
 	{
@@ -97,7 +97,7 @@ var findings = []kit.Finding[Case]{
 			if !ok || !ragged || !isColumnEdit(f.Detail) || !boundsPanic(f.Detail) {
 				return false
 			}
-			return analyse(c.Build()).anyTable(func(t tblInfo) bool { return len(t.Rows) > 0 })
+			return analyse(c.Build()).AnyRows
 		},
 	},
 	{
